@@ -37,6 +37,11 @@ OF THIS SOFTWARE, EVEN IF ADVISED OF THE POSSIBILITY OF SUCH DAMAGE.
 #include "intrin_portable.h"
 #include "reciprocal.h"
 #include "soft_aes.h"
+#ifdef RANDOMX_VERIF
+#include "verif_hooks.h"
+#undef RANDOMX_PROGRAM_ITERATIONS
+#define RANDOMX_PROGRAM_ITERATIONS randomx_verif_iterations
+#endif
 
 namespace randomx {
 
